@@ -182,3 +182,52 @@ pub fn set_to_string(b: u64) -> String {
     }
     format!("{{{}}}", v.join(","))
 }
+
+/// The same builder state as `builder_from_model`, reached through the setters in a random order,
+/// with redundant intermediate calls (a wrong side to move / right / e.p. file set first, then overwritten).
+pub fn builder_from_model_shuffled(p: &RPos, rng: &mut crate::rng::Rng) -> BoardBuilder {
+    let mut bb = BoardBuilder::new();
+    let mut steps: Vec<u8> = vec![0, 1, 2, 3, 4];
+    rng.shuffle(&mut steps);
+    // optional decoy calls first
+    if rng.chance(1, 2) {
+        bb.side_to_move(lib_color(p.stm ^ 1));
+    }
+    if rng.chance(1, 3) {
+        bb.en_passant(Some(File::from_index(rng.below(8))));
+    }
+    if rng.chance(1, 3) {
+        bb.castle_rights(Color::White, lib_rights(rng.below(4) as u8));
+    }
+    for st in steps {
+        match st {
+            0 => {
+                let mut sqs: Vec<u8> = (0..64).collect();
+                rng.shuffle(&mut sqs);
+                for s in sqs {
+                    let x = p.sq[s as usize];
+                    if x != 0 {
+                        bb.piece(Square::new(s), lib_piece(kind(x)), lib_color(color(x)));
+                    } else if rng.chance(1, 8) {
+                        // put something there and clear it again
+                        bb.piece(Square::new(s), Piece::Queen, Color::Black);
+                        bb.clear_square(Square::new(s));
+                    }
+                }
+            }
+            1 => {
+                bb.side_to_move(lib_color(p.stm));
+            }
+            2 => {
+                bb.castle_rights(Color::White, lib_rights(p.castle & 3));
+            }
+            3 => {
+                bb.castle_rights(Color::Black, lib_rights(p.castle >> 2));
+            }
+            _ => {
+                bb.en_passant(p.ep.map(|e| File::from_index((e & 7) as usize)));
+            }
+        }
+    }
+    bb
+}
